@@ -470,6 +470,25 @@ def check_s9(chk, m, K, prog):
                    "so three pending fibre_run_atomic requests A, B, C are dispatched C, B, A instead of in their order of arrival"
                    % (c.callee, f.name) if before else "re-entry happens only after the append", c.loc, f.name)
     chk.expect("S9", "drain loops over kernel.atomic_runq", n, 1)
+    # requests made from interrupt context before this call are older than the request fibre_run() makes now: they are moved to
+    # the run queue first
+    fn, ps = fib.fn_paths(m, "fibre_run")
+    chk.note_fn(fn)
+    for p in ps:
+        if paths.is_assert_fail_path(p):
+            continue
+        cs = fib.calls_on(p)
+        drain = [k for k, e in cs if e.callee == "handle_atomic_runq" or
+                 (e.callee == "messageq_receive" and e.args and K.queue_arg(e.args[0]) == "atomic_runq")]
+        app = [k for k, e in cs if e.callee == "make_runnable" or
+               (e.callee in ("list_insert", "list_push", "list_insert_sorted") and e.args and K.queue_arg(e.args[0]) == "runq")]
+        if not app:
+            continue
+        ok = bool(drain) and drain[0] < app[0]
+        chk.ob("S9.drain-before-append", "fibre_run path " + "->".join(b.lstrip("%") for b in p.blocks), ok,
+               "pending interrupt-context requests are moved to the run queue before fibre_run appends its own fibre" if ok else
+               "fibre_run appends its fibre before the atomic run queue is drained: a fibre_run_atomic() request that was made earlier "
+               "ends up behind it, so fibres are not dispatched in the order they became runnable", p.events[app[0]].inst.loc, fn.name)
 
 
 def run(chk):
